@@ -335,6 +335,20 @@ func simpleExpr(e ast.Expr) bool {
 	return false
 }
 
+// isAtomicMethodCall: call is a call of a method of a sync/atomic type.
+func (r *rewriter) isAtomicMethodCall(call *ast.CallExpr) bool {
+	sel, ok := call.Fun.(*ast.SelectorExpr)
+	if !ok {
+		return false
+	}
+	s := r.info.Selections[sel]
+	if s == nil || s.Kind() != types.MethodVal {
+		return false
+	}
+	f, ok := s.Obj().(*types.Func)
+	return ok && f.Pkg() != nil && f.Pkg().Path() == "sync/atomic"
+}
+
 // atomicCallsIn finds calls of methods of sync/atomic types (atomic.Value, atomic.Int64, ...) inside a statement.
 func (r *rewriter) atomicCallsIn(n ast.Node) []*ast.CallExpr {
 	var out []*ast.CallExpr
@@ -463,7 +477,17 @@ func directRecv(n ast.Node, u *ast.UnaryExpr) bool {
 func (r *rewriter) rewriteStmt(st ast.Stmt) []ast.Stmt {
 	var heads []ast.Node
 	switch s := st.(type) {
-	case *ast.ExprStmt, *ast.AssignStmt, *ast.ReturnStmt, *ast.IncDecStmt, *ast.DeclStmt, *ast.SendStmt, *ast.DeferStmt, *ast.GoStmt:
+	case *ast.DeferStmt:
+		heads = []ast.Node{s}
+		if r.isAtomicMethodCall(s.Call) {
+			// defer x.Store(v): the arguments (and the receiver) are evaluated now, the operation - with its
+			// scheduling point - runs at exit (rewriteStmt1)
+			heads = nil
+			for _, a := range s.Call.Args {
+				heads = append(heads, a)
+			}
+		}
+	case *ast.ExprStmt, *ast.AssignStmt, *ast.ReturnStmt, *ast.IncDecStmt, *ast.DeclStmt, *ast.SendStmt, *ast.GoStmt:
 		heads = []ast.Node{s}
 	case *ast.IfStmt:
 		heads = []ast.Node{s.Init, s.Cond}
@@ -494,12 +518,6 @@ func (r *rewriter) rewriteStmt(st ast.Stmt) []ast.Stmt {
 			continue
 		}
 		switch s := st.(type) {
-		case *ast.DeferStmt:
-			for _, c := range calls {
-				if c == s.Call {
-					r.errorf(c.Pos(), "deferred call of a sync/atomic method is not modelled (its scheduling point would be at the defer statement)")
-				}
-			}
 		case *ast.GoStmt:
 			for _, c := range calls {
 				if c == s.Call {
@@ -908,6 +926,37 @@ func (r *rewriter) rewriteStmt1(st ast.Stmt) []ast.Stmt {
 			}
 			s.Call = &ast.CallExpr{Fun: &ast.FuncLit{Type: &ast.FuncType{Params: &ast.FieldList{}}, Body: &ast.BlockStmt{List: body}}}
 			return []ast.Stmt{bind, s}
+		}
+		if r.isAtomicMethodCall(s.Call) {
+			sel := s.Call.Fun.(*ast.SelectorExpr)
+			if !simpleExpr(sel.X) {
+				r.errorf(s.Pos(), "deferred sync/atomic method call on a complex receiver expression is not modelled")
+				return []ast.Stmt{s}
+			}
+			var pre []ast.Stmt
+			rv := r.tmp("r")
+			var recv ast.Expr = &ast.UnaryExpr{Op: token.AND, X: sel.X}
+			if _, isPtr := r.info.TypeOf(sel.X).Underlying().(*types.Pointer); isPtr {
+				recv = sel.X
+			}
+			pre = append(pre, &ast.AssignStmt{Lhs: []ast.Expr{rv}, Tok: token.DEFINE, Rhs: []ast.Expr{recv}})
+			var args []ast.Expr
+			for _, a := range s.Call.Args {
+				a = r.expr(a)
+				if tv, known := r.info.Types[a]; known && (tv.Value != nil || tv.IsNil()) {
+					args = append(args, a)
+					continue
+				}
+				av := r.tmp("a")
+				pre = append(pre, &ast.AssignStmt{Lhs: []ast.Expr{av}, Tok: token.DEFINE, Rhs: []ast.Expr{a}})
+				args = append(args, av)
+			}
+			body := []ast.Stmt{
+				&ast.ExprStmt{X: r.call("AtomicPoint", r.newSite(s.Pos(), "atomic-method", false))},
+				&ast.ExprStmt{X: &ast.CallExpr{Fun: &ast.SelectorExpr{X: rv, Sel: ast.NewIdent(sel.Sel.Name)}, Args: args}},
+			}
+			s.Call = &ast.CallExpr{Fun: &ast.FuncLit{Type: &ast.FuncType{Params: &ast.FieldList{}}, Body: &ast.BlockStmt{List: body}}}
+			return append(pre, s)
 		}
 		ne, isCall := r.expr(s.Call).(*ast.CallExpr)
 		if !isCall {
